@@ -16,6 +16,9 @@ RULE = (
     "every last-octet value x {extendable, 63-octet label, name at 255} x prefix_ok. Distinct by (mode, relation, order "
     "sign, relativity pair, fold-neighbour class) or (succ/pred, last octet, shape, prefix_ok)."
 )
+RULE += " " + (
+    "Also: the digestable form under an origin; `name - origin` and choose_relativity against relativize; label-boundary shifts."
+)
 ASSUMPTIONS = [
     "reference order vlib/ref/names.py (RFC 4034 §6.1: explicit A-Z fold table, reversed label tuples, relative < absolute)",
     "minimality of successor/predecessor is not demanded, only strict order / wrap to origin",
